@@ -11,16 +11,12 @@ import (
 // strings) as unparsed CBOR and the rest as a CBOR-encoded array of one fewer
 // elements. Trailing data will be left intact.
 //
-// If the CBOR data is invalid or not an array, first will be zero length and
-// remaining will be equal to the input data.
+// If the CBOR data is empty, invalid or not an array, first will be zero length
+// and remaining will be equal to the input data.
 //
 // This function only operates on array major types and not text strings or
 // byte strings.
 func ArrayShift(data []byte) (first, remaining []byte) {
-	if len(data) == 0 {
-		panic("data cannot be empty")
-	}
-
 	b := bytes.NewBuffer(data)
 	dec := NewDecoder(b)
 	length, err := dec.UnwrapArray()
